@@ -168,7 +168,7 @@ def check(ctx):
          "a.oal": 'use "lib.oal" as c;\nlet x = { \'n c.name };\n', "b.oal": 'use "lib.oal" as c;\nlet y = { \'n c.name };\n',
          "lib.oal": "// 😉\nlet name = str;\n"},
     ]
-    n = 30 if ctx.thorough else 8
+    n = 90 if ctx.thorough else 8
     wss = corpus + [lspws.gen_workspace(ctx.rng) for _ in range(n)]
     for i, files in enumerate(wss):
         check_workspace(ctx, files, str(i))
